@@ -35,11 +35,25 @@ CHECKS = {
          "valid under every reserve_space outcome, and that commit/rollback/clear/purge act on exactly the documented data. "
          "Every history TLC exports (all of bounded depth plus simulated long ones, x initial capacity 64..256 x growth mode) "
          "is replayed on the real Buffer and builders under ASan/UBSan and the complete item sequence with content is "
-         "compared after every call.",
+         "compared after every call. An extension (specs/BufferExt.tla, harness/bufferext_replay.cpp, checks/C04ext.py) adds: "
+         "Area objects built with AreaBuilder/TagListBuilder/OuterRingBuilder/InnerRingBuilder in any order and number, with the "
+         "ring structure compared through Area::num_rings/is_multipolygon/outer_rings/inner_rings(outer), and scripted building "
+         "sequences exported over every initial capacity 64..280 so that each single reserve_space of each builder call is a "
+         "growth point; osmium::memory::CallbackBuffer (possibly_flush fires iff a callback is set and committed() > "
+         "max_buffer_size, flush iff something is committed, read always; the receiver gets exactly the committed items in "
+         "order; TLC checks conservation/order of everything committed and the firing rule); the nested-buffer chain of "
+         "auto_grow::internal kept in place with get_last_nested as an action, set_removed/purge_removed in all three growth "
+         "modes and on taken-out nested buffers, commit()/clear() return values, swap/move carrying the chain; "
+         "add_buffer/push_back/full members while a builder is open on the source buffer and moves while builders are open.",
     design_ref="DESIGN.md section 4, C04",
-    note="Histories are bounded (exhaustive to depth 9 / 5, simulated to depth 30); strings are lengths in the spec and "
-         "deterministic bytes in the harness; exact capacity after growth is not compared; purge/set_removed only in growth "
-         "modes no/yes; Area builders are not covered.",
+    note="Histories are bounded (exhaustive to depth 9 / 5, simulated to depth 30; extension: bounded BFS + three directed "
+         "scripts over every capacity 64..280); strings are lengths in the spec (bytes re-checked by the harness); capacity "
+         "after growth is not compared, but under auto_grow::internal the partition of committed items into current block and "
+         "nested buffers follows the code's documented policy and is observed through has_nested_buffers/get_last_nested/"
+         "set_removed; purge_removed is modelled as acting on the current memory block only (removed items frozen into nested "
+         "buffers stay until that buffer is purged) and CallbackBuffer hand-over as taking uncommitted bytes along; "
+         "add_buffer/push_back/swap/flush with builders open on the destination (forbidden by documented preconditions), "
+         "AreaBuilder as a sub-builder, changesets in the extension, and copying an item into the buffer it lives in are not covered.",
     technique="TLA+ spec + TLC; spec-to-code replay of exported API histories with per-step state comparison"),
  "C15": dict(
     category="model_checking",
@@ -135,14 +149,30 @@ CHECKS = {
          "I=>A exhaustively for all insertion orders with small geometry and on every exported history with the real geometry "
          "(block 2^16, growth 2^20, window 1310720); histories are replayed on all nine registered map types through MapFactory "
          "(plus named-file variants, dump->reload via create_map_with_fd, reopen) and on NodeLocationsForWays, every "
-         "get/get_noexcept, dump byte and way location compared with the spec.",
+         "get/get_noexcept, dump byte and way location compared with the spec. Extension (checks/C12ext.py): MemoryMapping.tla "
+         "models osmium::MemoryMapping/AnonymousMemoryMapping/TypedMemoryMapping with file_size/resize_file (A: a window onto a "
+         "zero-extended byte array - contents of the common prefix survive resize, new bytes read zero, the file is extended to "
+         "exactly offset+size and never shrunk, nothing is mapped after unmap, std::system_error exactly for a bad descriptor, a "
+         "non-writable descriptor that needs growth or a shared mapping, an offset that is no page multiple; I: "
+         "fstat/ftruncate/mmap/munmap/mremap with page granularity, COW bytes, SIGBUS zone), MemoryMappingVector.tla models "
+         "mmap_vector_base/_anon/_file directly (size/capacity arithmetic with the 2^20 increment, fill, at(), clear, "
+         "shrink_to_fit, reopening the file, the file length check) and IndexMultimap.tla models every class in index/multimap/ "
+         "(A: one bag of <id,value> pairs; I: vector with tombstones + equal_range + std::sort, std::multimap, Hybrid with its "
+         "iterator). TLC checks I=>A exhaustively (page size 4 / increment 3 / 2-3 ids) and on every exported history with page "
+         "4096 (sizes 4095/4096/4097, multi-page growth, shrink, zero); histories are replayed on the real classes with real "
+         "temporary files, every byte of window and file, size/capacity/at()/raw slots, get_all() bags and dumped lists compared.",
     design_ref="DESIGN.md section 4, C12",
     note="ids of a history are distinct; values are insertion ordinals mapped to Locations (first one is Location{0,0}); ids >= "
          "2^32 are order-preserving tokens; dense types only with ids < 4194304 (memory); most cases run on 6 of the 10 variants "
          "in rotation, every 8th (quick) / 4th (thorough) on all; FlexMem threshold lowered to 3 by the "
          "OSMIUM_VERIF_FLEXMEM_MIN_DENSE hook, the real 0xffffff threshold and 1Mi-element mmap growth of sparse indexes only in "
          "the thorough tier via 3 bulk patterns chosen by TLC at 2^20-id granularity; size()/used_memory()/is_dense() not "
-         "compared; clear() outside the histories; thorough replays a seeded sample of the exported histories.",
+         "compared; clear() outside the histories; thorough replays a seeded sample of the exported histories. Extension: one "
+         "mapping object at a time per descriptor; ENOSPC branch of resize_fd, out-of-memory mmap/mremap failures, resize(0), "
+         "resize() after unmap() not driven; bytes an anonymous mapping wrote beyond a later shrink are unspecified when "
+         "re-exposed; a write_private FILE mapping loses its changes on resize and mmap vectors keep slot values across "
+         "clear()/shrinking resize (both modelled as implemented); multimap entries holding empty_value<TValue>() are no "
+         "entries, values compared as bags; nwr_array/NWRIdSet not modelled.",
     technique="TLA+ specs + TLC refinement check; behaviour export (BFS and simulation) + step-wise replay on the real code under ASan/UBSan"),
 
  "C13": dict(
@@ -358,6 +388,41 @@ CHECKS = {
          "(-fno-access-control). Entity-type subsets have no expected outcome.",
     technique="TLA+ structure/fault catalogue + implementation-shaped XML handler model checked by TLC; TLC-exported faulty files and "
               "handler histories replayed on the real Reader under ASan+UBSan with a bounds-checking item walker as oracle"),
+
+ "C02": dict(
+    category="model_checking",
+    text="specs/Encodings.tla holds the A-layer (a catalogue of object lists: shared strings, more distinct strings than "
+         "table rows, strings at the 250 character border, every metadata level, deleted objects, ids going down and below "
+         "zero, far apart coordinates, few-byte files). One I-layer module per format models the ENCODING CHOICE SPACE as "
+         "nondeterministic encoder actions fused step by step with a decoder shaped like libosmium's parser: O5mTable.tla "
+         "(reference table as newest-first list vs ring + current_entry, inline vs any matching back reference per string, "
+         "delta registers per field and member type, reset / sync / jump / unknown / single-byte data sets, o5m/o5c, "
+         "bbox/timestamp, type-subset reads with undecoded skipping), PbfChoices.tla (blocks, groups, plain/dense, "
+         "granularity, lat/lon offset, date granularity with exact-representability preconditions, optional Info/DenseInfo "
+         "fields, string table layouts, dense key/value delimiting; labels: compression, indexdata and BlobHeader sizes "
+         "127..65535, unknown fields, field order, packed/unpacked/split, padded lengths, 16 MiB / 32 MiB-1 blobs, unknown "
+         "blob types), XmlChoices.tla (osm/osmChange, sections, defaults written or omitted, child order; labels: attribute "
+         "order, quoting, references, white space, declaration/BOM, comments, foreign elements/attributes, bounds/bound), "
+         "OplChoices.tla (field sets/order, separators, LF/CRLF/CR, empty and comment lines, escapes). TLC checks for every "
+         "choice sequence that the decoder model yields the data set (DecodedOK), for o5m that ring indexing equals "
+         "newest-first numbering across wrap-around (N=3,4) and reset (TableAgree) and that the delta registers agree "
+         "(RegsAgree); 'as shipped' variants of three decoder models are required to FAIL. TLC exports choice vectors (all of "
+         "them for the few-byte data sets and for every placement of <=2 resets, simulation otherwise; covering selection "
+         "over ~280 encoding features with a vacuity guard) with the expected object list; independent specification-derived "
+         "encoders (tools/enc_*.py, python stdlib) materialise them with boundary values; harness/encodings_replay.cpp reads "
+         "each file with osmium::io::Reader through the file-descriptor and the buffer path and compares every object and "
+         "the header.",
+    design_ref="DESIGN.md section 4, C02",
+    note="Values are boundary tokens (ids to 2^58 and negative, 2^31-1 versions/uids, timestamps to 2100, +-179/+-89 degree "
+         "coordinates, UTF-8 with XML/OPL specials, exact 249/250/251 byte strings), not the whole domain; codecs are "
+         "exercised, not enumerated. o5m table has 3 rows (OSMIUM_VERIF_O5M_TABLE_SIZE) except the thorough bulk case (real "
+         "15000 rows, 15010 strings, filled by a closed-form action whose equality with the single steps TLC checks at small "
+         "N). Domain: o5m reset at every type change in the main configs (files without it only in the F02h config), no uid 0 "
+         "with user name; PBF values exactly representable; no LocationsOnWays, changesets, file-level compression; type-subset "
+         "reads modelled for o5m only. Trusted base: the independent encoders. Seven conformance gaps are recorded as known "
+         "findings F02b-F02h.",
+    technique="TLA+ specs of the encoding choice space fused with decoder models, TLC invariant checking; spec-to-code replay "
+              "of exported choice vectors through independent encoders"),
 }
 
 NOT_APPLICABLE = {
